@@ -58,14 +58,19 @@ fn verifier_challenges<G: Group>(msg: &Msg<G>) -> Result<Option<Vec<Scalar>>, Ca
 
 /// challenges drawn for `msg` when it is verified as the SECOND member of a batch behind an honest
 /// single-commitment companion (None if the batch is refused before any challenge is drawn)
-fn verifier_challenges_in_batch<G: Group>(companion: &Msg<G>, msg: &Msg<G>) -> Result<Option<Vec<Scalar>>, Caught> {
+fn verifier_challenges_in_batch<G: Group>(companion: &Msg<G>, msg: &Msg<G>, n_comp: usize) -> Result<Option<Vec<Scalar>>, Caught> {
     let (Delivered::Ready(cst, cpr), Delivered::Ready(st, proof)) = (guarded(|| companion.open())?, guarded(|| msg.open())?) else {
         return Ok(None);
     };
     tap::start();
-    let mut trs = vec![companion.ctx.transcript(), msg.ctx.transcript()];
-    let tid = trs[1].tap_id();
-    let r = guarded(|| G::verify(&mut trs, &[cst, st], &[cpr, proof], VerifyAction::VerifyOnly));
+    let mut trs: Vec<merlin::Transcript> = (0..n_comp).map(|_| companion.ctx.transcript()).collect();
+    trs.push(msg.ctx.transcript());
+    let tid = trs[n_comp].tap_id();
+    let mut sts = vec![cst; n_comp];
+    sts.push(st);
+    let mut prs = vec![cpr; n_comp];
+    prs.push(proof);
+    let r = guarded(|| G::verify(&mut trs, &sts, &prs, VerifyAction::VerifyOnly));
     let events = tap::stop();
     let _ = r?;
     match TranscriptView::from_events(&events, tid) {
@@ -267,7 +272,8 @@ fn run<G: Group>(sc: &Scenario, st: &mut RunStats) -> Vec<Violation> {
         let cb = build::<G>(&ccfg, &cwit);
         if let Ok(Ok(cp)) = prove_mode::<G>(&cctx, &cb.statement, &cb.witness, &RngMode::Healthy(sc.rng_seed ^ 2)).0 {
             let cmsg = Msg::<G>::honest(&ccfg, &cwit, &cctx, &cb, &cp);
-            if let Ok(Some(bbase)) = verifier_challenges_in_batch(&cmsg, &msg) {
+            for n_comp in [1usize, 2] {
+            if let Ok(Some(bbase)) = verifier_challenges_in_batch(&cmsg, &msg, n_comp) {
                 let mut bf: Vec<(Fault, String)> = vec![(Fault::GeneratorH(GenPart::Both), "H".into()), (Fault::GeneratorH(GenPart::PointOnly), "H (point)".into())];
                 for k in 0..sc.cfg.ext {
                     bf.push((Fault::GeneratorG { k, part: GenPart::Both }, format!("G[{}]", k)));
@@ -280,7 +286,7 @@ fn run<G: Group>(sc: &Scenario, st: &mut RunStats) -> Vec<Violation> {
                     }
                     let mut r = frng.split_idx("b", bi as u64);
                     let Some(bad) = apply_fault(&msg, f, &mut r) else { continue };
-                    match verifier_challenges_in_batch(&cmsg, &bad) {
+                    match verifier_challenges_in_batch(&cmsg, &bad, n_comp) {
                         Ok(None) => st.probe("batch_refused_before_challenges"),
                         Err(c) => {
                             out.push(Violation::new("verifier_panicked", "panic", format!("{:?}", c)));
@@ -308,8 +314,9 @@ fn run<G: Group>(sc: &Scenario, st: &mut RunStats) -> Vec<Violation> {
                         },
                     }
                     st.evals += 1;
-                    st.event(format!("batch-context perturb {}", name));
+                    st.event(format!("batch-context perturb {} behind {} companion(s)", name, n_comp));
                 }
+            }
             }
         }
     }
